@@ -93,7 +93,7 @@ def entry(model, m, n, psi_fn, images=None):
 
 # -- psi suppliers -----------------------------------------------------------------------------
 
-def atom_psi(table, model, axioms=None):
+def atom_psi(table, model, axioms=None, near_field=False):
     """psi over the atom table (reduced kernel only: the callers restrict themselves to pulse pairs
     for which the exact-kernel criterion t <= 1.1 cannot hold, and this is asserted).  With
     `axioms` (a list) the additivity of the integral over the two halves of every full-segment atom
@@ -104,7 +104,7 @@ def atom_psi(table, model, axioms=None):
     def psi(obs, a, b, k, r, seg_len, frac, fvs):
         ra, rb = a - obs, b - obs
         t = (np.linalg.norm(ra) + np.linalg.norm(rb)) / seg_len
-        if t <= 1.1:
+        if t <= 1.1 and not near_field:
             raise ValueError('reference psi asked for a pair within the exact-kernel range (t=%g)' % t)
         ai = table.atom_for(ra, rb, k, r, False, 1.0, w, args=(ra.copy(), rb.copy(), k, float(r), False, 1.0, w))
         if axioms is not None and frac == 1.0 and ai not in seen:
